@@ -176,8 +176,130 @@ def tsl_case(draw, tier):
             "script": script, "b_script": b_script, "flags": sorted(flags)}
 
 
+@st.composite
+def keys_case(draw, tier):
+    """map_(F, d, __keys__=ks): the lifecycle key set is given explicitly, so a key can be live while no dictionary holds an
+    element for it (the child's input is then unbound), get its element later, lose it again. F has a node that is active
+    from the start of the child (a start-relative source), so each instance produces output in its creation cycle."""
+    big = tier == "thorough"
+    start = draw(st.sampled_from([0, 0, 3]))
+    horizon = draw(st.integers(5, 24 if big else 14))
+    end = start + horizon
+    nk = draw(st.integers(2, 4))
+    live, dset = set(), set()
+    ks_script, d_script = [], []
+    for t in range(start, end):
+        kops, dops = [], []
+        for k in range(nk):
+            r = draw(st.integers(0, 9))
+            if r == 0 and k not in live:
+                kops.append(["add", k]); live.add(k)
+            elif r == 1 and k in live and t > start:
+                kops.append(["rem", k]); live.discard(k)
+            r = draw(st.integers(0, 7))
+            if r in (0, 1):
+                dops.append(["set", k, draw(st.integers(1, 40))]); dset.add(k)
+            elif r == 2 and k in dset:
+                dops.append(["erase", k]); dset.discard(k)
+        if t == start and not kops:
+            kops.append(["add", 0]); live.add(0)
+        if kops:
+            ks_script.append([t, [{"k": "S", "ops": kops}]])
+        if dops:
+            d_script.append([t, [{"k": "D", "ops": dops}]])
+    body = [{"id": "is", "op": "src", "schema": "TS[int]", "rel": True, "script": [[r_, [{"k": "set", "v": 100 + r_}]] for r_ in sorted(draw(st.sets(st.integers(0, 4), min_size=1, max_size=2)) | {0})]},
+            {"id": "b0", "op": "node", "ins": ["is", {"arg": 0}], "valid": [0], "out": "TS[int]", "fn": draw(st.sampled_from(["sum", "acc"])), "coef": [1, 3], "log_inputs": False}]
+    F = {"params": ["TS[int]"], "names": ["x"], "out": "TS[int]", "stmts": body, "ret": "b0"}
+    return {"kind": "keys", "start": start, "end": end, "F": F, "ks": ks_script, "d": d_script}
+
+
 def strategy(tier):
-    return st.one_of(case(tier), case(tier), case(tier), nested_case(tier), tsl_case(tier))
+    return st.one_of(case(tier), case(tier), case(tier), nested_case(tier), tsl_case(tier), keys_case(tier))
+
+
+def check_keys(case, ctx) -> Result:
+    res = Result()
+    start, end, F = case["start"], case["end"], case["F"]
+    stmts = [{"id": "d", "op": "src", "schema": "TSD[int,TS[int]]", "script": case["d"]},
+             {"id": "ks", "op": "src", "schema": "TSS[int]", "script": case["ks"]},
+             {"id": "m", "op": "op", "name": "map_", "args": [{"fn": "F"}, {"ts": "d"}, {"ts": "ks", "name": "__keys__"}], "has_out": True},
+             {"id": "rec", "op": "node", "ins": ["m"], "deep": True, "valid": []}]
+    resp = ctx.run({"start": start, "end": end, "stmts": stmts, "subs": {"F": F}})
+    if resp.get("crash"):
+        res.violations.append(Viol("engine_crash", f"map_ with __keys__: worker died {resp.get('signal')} {resp.get('stderr', '')[-500:]}"))
+        return res
+    if not resp.get("built"):
+        raise Rejected(f"C10 generator produced a __keys__ program the tree rejects: {resp.get('error')}")
+    feats = {"explicit_keys": True}
+    if resp.get("error"):
+        res.violations.append(Viol("run_failed", f"map_ with __keys__ threw: {resp['error']}", feats))
+        return res
+    # key lifetimes from the explicit key set; element history of each key from the dictionary script
+    lts, live = [], {}
+    for t, ops in case["ks"]:
+        for op in ops:
+            for how, k in op["ops"]:
+                if how == "add" and k not in live:
+                    live[k] = t
+                elif how == "rem" and k in live:
+                    if live[k] < t:
+                        lts.append((k, live.pop(k), t))
+                    else:
+                        live.pop(k)
+    lts += [(k, ta, None) for k, ta in sorted(live.items())]
+    elem = {}     # key -> [(t, value | None)]
+    for t, ops in case["d"]:
+        for op in ops:
+            for o in op["ops"]:
+                elem.setdefault(o[1], []).append((t, o[2] if o[0] == "set" else None))
+    unbound_at_birth = False
+    exp_mod, exp_rem = {}, {}
+    for (k, ta, trm) in lts:
+        hi = trm if trm is not None else end
+        hist = elem.get(k, [])
+        cur = [v for (t, v) in hist if t <= ta]
+        sc = ([[ta, [{"k": "set", "v": cur[-1]}]]] if cur and cur[-1] is not None else []) + \
+             [[t, [{"k": "set", "v": v} if v is not None else {"k": "inval"}]] for (t, v) in hist if ta < t < hi]
+        if not (cur and cur[-1] is not None):
+            unbound_at_birth = True
+        solo = [{"id": "x0", "op": "src", "schema": "TS[int]", "script": sc}, {"id": "f0", "op": "inline", "sub": "F", "ins": ["x0"]}, {"id": "r0", "op": "node", "ins": ["f0"]}]
+        sresp = ctx.run({"start": ta, "end": hi, "stmts": solo, "subs": {"F": F}})
+        if sresp.get("crash") or not sresp.get("built") or sresp.get("error"):
+            raise HarnessError(f"C10 __keys__ solo program failed: {sresp.get('error') or sresp.get('signal')}")
+        stream = [(t, v) for (t, v, _) in Trace(sresp["trace"]).stream("r0") if ta <= t < hi]
+        for t, v in stream:
+            exp_mod.setdefault(t, {})[k] = v
+        if trm is not None and stream and trm < end:
+            exp_rem.setdefault(trm, set()).add(k)
+    got_mod, got_rem = {}, {}
+    for d in Trace(resp["trace"]).evals_of("rec", "r"):
+        i = d["ins"][0]
+        if not i["m"]:
+            continue
+        delta = i.get("dv") or {}
+        if delta.get("modified"):
+            got_mod[d["t"]] = {k: v for k, v in delta["modified"]}
+        if delta.get("removed"):
+            got_rem[d["t"]] = set(delta["removed"])
+    for t in sorted(set(exp_mod) | set(got_mod)):
+        e, g = exp_mod.get(t, {}), got_mod.get(t, {})
+        if e != g:
+            missing = {k: v for k, v in e.items() if k not in g}
+            wrong = {k: (g[k], e[k]) for k in e if k in g and g[k] != e[k]}
+            clause = "key_stream_value_differs" if wrong else "key_tick_missing" if missing else "key_tick_unexpected"
+            res.violations.append(Viol(clause, f"t={t}: map_(F, d, __keys__=ks) output modified {g}, running F alone per key lifetime {[(k, a, b) for k, a, b in lts][:8]} gives {e}", feats))
+            break
+    else:
+        for t in sorted(set(exp_rem) | set(got_rem)):
+            if exp_rem.get(t, set()) != got_rem.get(t, set()):
+                res.violations.append(Viol("removed_keys_differ", f"t={t}: map output removed {sorted(got_rem.get(t, set()))}, expected {sorted(exp_rem.get(t, set()))}", feats))
+                break
+    res.nontrivial = unbound_at_birth and len(lts) >= 2
+    res.labels.append("explicit_key_set")
+    if unbound_at_birth:
+        res.labels.append("key_live_without_element")
+    res.summary = {"lifetimes": lts[:10]}
+    return res
 
 
 def norm_dd(d):
@@ -423,6 +545,8 @@ def check(case, ctx) -> Result:
         return check_nested(case, ctx)
     if case.get("kind") == "tsl":
         return check_tsl(case, ctx)
+    if case.get("kind") == "keys":
+        return check_keys(case, ctx)
     res = Result()
     start, end = case["start"], case["end"]
     F = case["F"]
